@@ -118,6 +118,91 @@ def export_crashes(ctx):
     ctx.add_sample(events[1])
 
 
+SYSCALLS = ("openat,open,creat,write,pwrite64,writev,rename,renameat,renameat2,unlink,unlinkat,rmdir,fsync,fdatasync,"
+            "close,ftruncate,truncate,link,linkat,symlink,symlinkat,fcntl,lseek,fallocate,chmod,fchmod")
+
+
+def export_syscall_crashes(ctx):
+    """(b') "a crash of the tracker at any point during an export": independent of the hook points, the
+    process is killed (SIGKILL injected by strace) on entry to every single file-related system call of
+    the second export - so also at steps a changed implementation adds between the hook points - and the
+    file at the export path must be the complete old or the complete new one each time."""
+    import shutil
+    import subprocess
+    if not shutil.which("strace"):
+        ctx.coverage["export_syscall_kill_points"] = "skipped: strace not available"
+        return
+    cargo_build(ctx)
+    n_old, n_new = 150, 250       # the second export needs two write() calls (BufWriter: 8 KiB)
+    old = [[4, h, 1, 0] for h in range(1, n_old + 1)]
+    new = [[4, h, 1, 1] for h in range(1, n_old + 1)] + [[4, h, 0, 1] for h in range(n_old + 1, n_new + 1)]
+    d0 = ctx.path("export_sys_census")
+    shutil.rmtree(d0, ignore_errors=True)
+    os.makedirs(d0)
+    tr = ctx.path("export_sys_census.strace")
+    p = subprocess.run(["strace", "-f", "-o", tr, "-e", "trace=" + SYSCALLS, hbin("udp_export"), d0, str(n_old),
+                        str(n_new), "crash"], stdout=subprocess.PIPE, stderr=subprocess.PIPE, text=True, timeout=120)
+    if "SECOND-EXPORT-DONE" not in p.stdout:
+        ctx.coverage["export_syscall_kill_points"] = "skipped: strace cannot trace here (%s)" % p.stderr[-120:]
+        return
+    ordinal = {}
+    points = []
+    inside = False
+    for line in open(tr):
+        m = re.match(r"\d+\s+(\w+)\(", line)
+        if not m:
+            continue
+        name = m.group(1)
+        ordinal[name] = ordinal.get(name, 0) + 1
+        if "FIRST-EXPORT-DONE" in line:
+            inside = True
+            continue
+        if "SECOND-EXPORT-DONE" in line:
+            break
+        if inside:
+            points.append((name, ordinal[name]))
+    if len(points) < 4:
+        raise ToolError("system-call census of the export found only %s" % points)
+    events = []
+    used = []
+    for k, (name, j) in enumerate(points):
+        d = ctx.path("export_sys_%d" % k)
+        shutil.rmtree(d, ignore_errors=True)
+        os.makedirs(d)
+        p = subprocess.run(["strace", "-f", "-o", "/dev/null", "-e", "trace=" + SYSCALLS,
+                            "-e", "inject=%s:signal=SIGKILL:when=%d" % (name, j),
+                            hbin("udp_export"), d, str(n_old), str(n_new), "crash"],
+                           stdout=subprocess.PIPE, stderr=subprocess.PIPE, text=True, timeout=120)
+        if "FIRST-EXPORT-DONE" not in p.stdout or "SECOND-EXPORT-DONE" in p.stdout:
+            continue        # the kill did not land inside the second export (call numbering differed): no verdict
+        step = "syscall %s #%d" % (name, j)
+        used.append(step)
+        exists, content = read_export(os.path.join(d, "export.txt"))
+        events.append({"ev": "reset", "run": 300 + k})
+        events.append({"ev": "crash", "step": step, "path_exists": exists, "content": content, "old": old,
+                       "new": new, "tmp_exists": os.path.exists(os.path.join(d, "export.tmp"))})
+        p2 = subprocess.run([hbin("udp_export"), d, "1", "0", "single"], stdout=subprocess.PIPE,
+                            stderr=subprocess.PIPE, text=True, timeout=60)
+        if "SINGLE-EXPORT-DONE" not in p2.stdout:
+            raise ToolError("follow-up export failed: " + p2.stderr[-200:])
+        exists2, content2 = read_export(os.path.join(d, "export.txt"))
+        events.append({"ev": "reset", "run": 400 + k})
+        events.append({"ev": "crash", "step": "export_after_kill_at_" + step, "path_exists": exists2,
+                       "content": content2, "old": [[4, 1, 1, 0]], "new": [[4, 1, 1, 0]],
+                       "tmp_exists": os.path.exists(os.path.join(d, "export.tmp"))})
+        shutil.rmtree(d, ignore_errors=True)
+    if len(used) < 4:
+        raise ToolError("only %d of %d kill points landed inside the second export" % (len(used), len(points)))
+    tp = ctx.path("export_sys.ndjson")
+    with open(tp, "w") as f:
+        for ev in events:
+            f.write(json.dumps(ev, separators=(",", ":")) + "\n")
+    validate_and_report(ctx, "Export_Trace", "Export_Trace.cfg", tp, "export_syscalls",
+                        lambda ev, pre, st: {"tracker": "udp", "part": "export",
+                                             "step": ev.get("step") if isinstance(ev, dict) else None})
+    ctx.coverage["export_syscall_kill_points"] = used
+
+
 def mutate_partial(evs):
     for i in range(len(evs)):
         if evs[i].get("ev") == "crash" and len(evs[i]["content"]) > 1:
@@ -206,6 +291,7 @@ def stats_e2e(ctx):
 
 def run(ctx):
     export_crashes(ctx)
+    export_syscall_crashes(ctx)
     stats_e2e(ctx)
     # (a) reports: tally / totals / export on the model, then on the code
     for c in ["UdpSwarm_MC_B.cfg", "UdpSwarm_MC_C.cfg"]:
